@@ -56,6 +56,53 @@ ENTRIES = ("kcenters", "KCenters.fit", "kmedoids", "KMedoids.fit", "hybrid", "KH
 KC_FAMILY = ("kcenters", "KCenters.fit", "hybrid", "KHybrid.fit")
 INIT_FORMS = ("array", "list_views", "list_copies")
 KM_STARTS = ("cold", "inds", "state", "all", "pairs", "pairs_state")
+# life of an estimator object before the observed fit: fresh from the constructor; built with other parameters and
+# re-configured through set_params (the scikit-learn protocol the classes inherit); or already fitted to other data
+EST_LIVES = ("fresh", "fresh", "reconfigured", "refit")
+
+
+def _decoy_metric(name):
+    from enspara.cluster import util as cl_util
+    return cl_util._get_distance_method("manhattan" if name != "manhattan" else "euclidean")
+
+
+def _resolved(M):
+    from enspara.cluster import util as cl_util
+    return cl_util._get_distance_method(M)
+
+
+def _make_estimator(cls, M, name, life, **params):
+    """Build the estimator along the drawn life; the observed fit always runs with exactly `params` and metric M."""
+    if life != "reconfigured":
+        return cls(M, **params)
+    decoy = {}
+    for k, v in params.items():
+        if k == "random_state":
+            decoy[k] = v
+        elif k in ("n_clusters",):
+            decoy[k] = (v or 0) + 1
+        elif k == "cluster_radius":
+            decoy[k] = None if v is None else 3.0 * v
+        elif k in ("kmedoids_updates", "n_iters"):
+            decoy[k] = v + 1
+        else:
+            decoy[k] = v
+    est = cls(_decoy_metric(name), **decoy)
+    est.set_params(metric=_resolved(M), **{k: v for k, v in params.items() if k != "random_state"})
+    return est
+
+
+def _first_life(est, life, X, fit_kw, seed=None):
+    """life == 'refit': the object is first fitted to the same points in reverse order (other indices, other
+    first center), then to the data of the case."""
+    if life != "refit":
+        return
+    Y = np.ascontiguousarray(X[::-1])
+    kw = {k: v for k, v in fit_kw.items() if k in ("init_centers",)}
+    try:
+        est.fit(Y, **kw)
+    except Exception:
+        pass            # whatever the first fit does, the observed one must stand on its own
 
 
 # --------------------------------------------------------------------------
@@ -152,9 +199,68 @@ def cluster_case(draw, max_n=40, max_d=4, entries=ENTRIES, corner=None, min_n=1)
         case["kc"] = _kc_cfg(draw, n, entry, corner)
     else:
         case["km"] = _km_cfg(draw, n, entry)
+    case["est_life"] = draw(st.sampled_from(EST_LIVES))
     case["data"] = draw(rc.dataset_sites(shape))
     return case
 
+
+
+@st.composite
+def near_tie_case(draw):
+    """Two centers a, b and frames whose distances to them differ by one part in 1e5 .. 1e7 (far above the round-off
+    of the float64 kernels, 1e-15): the frame is assigned to the strictly closer one whichever is listed first, and
+    data whose coordinates are tiny (1e-9 .. 1e-12 per lattice step) still get their own labels."""
+    entry = draw(st.sampled_from(list(ENTRIES)))
+    metric = draw(st.sampled_from(list(rc.METRICS)))
+    mode = draw(st.sampled_from(["wide", "wide", "tiny"]))
+    d = draw(st.integers(1, 2))
+    if mode == "wide":
+        L = draw(st.sampled_from([50000, 123457, 600000, 1000000, 3000000]))
+        special = [0, 2 * L + 1, L, L + 1]
+        extra = draw(st.lists(st.integers(-L, 3 * L).filter(lambda v: v not in special), min_size=0, max_size=6, unique=True))
+        dtype = draw(st.sampled_from(["float64", "int32", "int64"]))
+        step = 1
+    else:
+        L = draw(st.integers(2, 40))
+        special = [0, 2 * L + 1, L, L + 1]
+        extra = draw(st.lists(st.integers(-60, 120).filter(lambda v: v not in special), min_size=0, max_size=6, unique=True))
+        dtype = draw(st.sampled_from(["float64", "float64", "float32"]))
+        step = draw(st.sampled_from([1e-9, 1e-10, 1e-12]))
+    xs = special + extra
+    order = draw(st.permutations(list(range(len(xs)))))
+    sites = [[xs[i]] + ([draw(st.integers(0, 3)) if i >= 4 else 0] if d == 2 else []) for i in order]
+    pos = {orig: k for k, orig in enumerate(order)}
+    ia, ib = pos[0], pos[1]
+    n = len(sites)
+    pair = draw(st.sampled_from([[ia, ib], [ib, ia]]))
+    case = {"data": {"sites": sites, "step": step, "jitter": None, "dtype": dtype,
+                     "layout": draw(st.sampled_from(["C", "F", "strided"])), "kind": "near_tie/" + mode},
+            "metric": metric, "entry": entry, "seed": draw(st.integers(0, 2 ** 31 - 1)),
+            "est_life": draw(st.sampled_from(EST_LIVES))}
+    if entry in KC_FAMILY:
+        cfg = {"init": pair, "init_form": draw(st.sampled_from(INIT_FORMS)), "n_clusters": draw(st.sampled_from([2, 2, 3])),
+               "radius_frac": None, "none_style": draw(st.sampled_from(["omit", "None"])), "tri": False,
+               "n_iters": None, "rs_kind": "int", "corner_mode": "k_le_m"}
+        if entry == "kcenters":
+            cfg["tri"] = draw(st.booleans())
+        if entry in ("hybrid", "KHybrid.fit"):
+            cfg["n_iters"] = draw(st.integers(0, 2))
+            if entry == "hybrid":
+                cfg["rs_kind"] = draw(st.sampled_from(["int", "RandomState"]))
+        cfg["n_clusters"] = min(cfg["n_clusters"], n)
+        case["kc"] = cfg
+    else:
+        start = draw(st.sampled_from([s for s in KM_STARTS if s != "cold"]))
+        cfg = {"start": start, "k": 2, "centers": pair, "container": draw(st.sampled_from(["list", "ndarray"])),
+               "lab_dtype": draw(st.sampled_from(["int64", "int32"])), "lengths": None,
+               "n_iters": draw(st.integers(1, 2)), "proposals": None}
+        if start in ("pairs", "pairs_state"):
+            cfg["lengths"] = _lengths(draw, n)
+            cfg["container"] = draw(st.sampled_from(["list_of_tuples", "list_of_lists"]))
+        if entry == "kmedoids" and draw(st.booleans()):
+            cfg["proposals"] = draw(st.lists(st.integers(0, n - 1), min_size=2, max_size=2))
+        case["km"] = cfg
+    return case
 
 # --------------------------------------------------------------------------
 # running one case
@@ -270,13 +376,19 @@ def execute(case):
                 cl += ["sweeps=%d" % cfg["n_iters"], "rs=" + cfg["rs_kind"]]
                 run.r = hy_mod.hybrid(X, M, n_iters=cfg["n_iters"], random_state=rs, **kw)
         elif entry == "KCenters.fit":
-            est = KCenters(M, n_clusters=k, cluster_radius=radius)
+            life = case.get("est_life", "fresh")
+            cl.append("est_life=" + life)
+            est = _make_estimator(KCenters, M, name, life, n_clusters=k, cluster_radius=radius)
+            _first_life(est, life, X, {"init_centers": init} if init is not None else {})
             est.fit(X, init_centers=init) if init is not None else est.fit(X)
             run.est = est
         else:
             cl.append("sweeps=%d" % cfg["n_iters"])
-            est = KHybrid(M, n_clusters=k, cluster_radius=radius, kmedoids_updates=cfg["n_iters"],
-                          random_state=case["seed"])
+            life = case.get("est_life", "fresh")
+            cl.append("est_life=" + life)
+            est = _make_estimator(KHybrid, M, name, life, n_clusters=k, cluster_radius=radius,
+                                  kmedoids_updates=cfg["n_iters"], random_state=case["seed"])
+            _first_life(est, life, X, {"init_centers": init} if init is not None else {})
             est.fit(X, init_centers=init) if init is not None else est.fit(X)
             run.est = est
     else:
@@ -326,8 +438,15 @@ def execute(case):
                 cl += rc.branch_classes(logs)
                 cl.append("replay_accepts=%s" % ("0" if not any(e["accepted"] for e in logs) else ">=1"))
         else:
-            est = KMedoids(M, n_clusters=kw.pop("n_clusters", None), n_iters=cfg["n_iters"])
+            life = case.get("est_life", "fresh")
+            cl.append("est_life=" + life)
+            est = _make_estimator(KMedoids, M, name, life, n_clusters=kw.pop("n_clusters", None), n_iters=cfg["n_iters"])
             with rc.pinned_global_rng(case["seed"]):
+                if life == "refit":
+                    try:
+                        est.fit(np.ascontiguousarray(X[::-1]), **kw)
+                    except Exception:
+                        pass
                 est.fit(X, **kw)
             run.est = est
     if run.est is not None:
@@ -530,6 +649,9 @@ CLAUSES = [
            doc="the inputs are not modified"),
     Clause("warm_start_complete", cluster_case(entries=KC_FAMILY, corner="complete"), run_all, quick=600,
            thorough=9000, doc="all sentences, for warm starts that need no further center"),
+    Clause("near_ties_and_tiny_scales", near_tie_case(), run_all, quick=600, thorough=9000,
+           doc="all sentences on warm starts where a frame's two center distances differ by 1e-5..1e-7 relative (the later "
+               "or the earlier center being the closer one) and on data with 1e-9..1e-12 coordinates"),
     Clause("all_large", _L, run_all, quick=0, thorough=4000, doc="all sentences on 20..300 frames x 1..8 dims"),
     Clause("pam_small_exhaustive", _S, run_all, quick=0, thorough=0, exhaustive=exhaustive_small,
            doc="all sentences on every small 1-D integer configuration"),
